@@ -30,7 +30,7 @@ def cfg_jobs(multi, binsearch, greater, tier, ls=4, is_=4):
     J('bounds', 'lookup', 'c_bound', [r'lower_bound\(unsigned char const&\) const', r'upper_bound\(unsigned char const&\) const', r'find\(unsigned char const&\) const', r'find_upper<'], ['BOUND'],
       what='lower_bound / upper_bound / find / begin / end return the position with the right rank in leaf-chain order')
     J('iterate', 'iterate', 'c_step', [r'iterator::operator\+\+\(\)', r'iterator::operator--\(\)'], what='iterator ++ / -- move one position along the leaf chain in both directions')
-    J('clear', 'clear', 'c_clear', [r'clear\(\)', r'clear_recursive\(', r'free_node\('], cbmc_flags=['--unwind', '4'], what='clear() / destructor: every node returned exactly once, tree empty and reusable')
+    J('clear', 'clear', 'c_clear', [r'clear\(\)', r'clear_recursive\(', r'free_node\('], cbmc_flags=['--unwind', '8'], what='clear() / destructor: every node returned exactly once, tree empty and reusable')
     return js
 
 
